@@ -735,6 +735,10 @@ func (v *MaryTransactionOutputValue) UnmarshalCBOR(data []byte) error {
 	if _, err := cbor.Decode(data, &tmp); err != nil {
 		return err
 	}
+	// An output cannot carry a negative quantity or one above 2^64-1
+	if err := tmp.Assets.CheckQuantityRange(); err != nil {
+		return err
+	}
 	*v = MaryTransactionOutputValue(tmp)
 	return nil
 }
